@@ -18,6 +18,10 @@ def judge(req, impl, f, prev):
     inv = f[3] if len(f) > 3 else 'inv-ok'
     if inv != 'inv-ok':
         return ('inv-ok', 'tree invariant broken after this call: ' + inv)
+    if ' ## ' in impl and 'poisoned' not in impl:
+        v = vlib.inv_of_dump(impl)        # the same predicate on the implementation's own dump
+        if v:
+            return ('inv-ok', 'tree invariant broken after this call (implementation state): ' + v)
     return None
 
 
